@@ -7,6 +7,7 @@ From PV Require Export Model.CodecX.
 From PV Require Export Model.PayloadX.
 From PV Require Export Model.JobGroupX.
 From PV Require Export Model.TransformX.
+From PV Require Export Model.ComponentsX Model.EnginesX Model.DecompX.
 
 Definition dispatch (f : Z) (x : sx) : sx :=
   match f with
@@ -26,5 +27,6 @@ Definition dispatch (f : Z) (x : sx) : sx :=
   | 1900 => x_jobgroup_run x
   | 1100 => x_tmat x | 1101 => x_inverse x | 1102 => x_decompose x | 1103 => x_flatten x | 1104 => x_regroup x
   | 1105 => x_perm_util x | 1106 => x_update_adjacent x | 1107 => x_close x
+  | 1200 => x_close_to x | 1201 => x_diag_equiv x | 1202 => x_decomp x
   | _ => L []
   end%Z.
